@@ -474,6 +474,17 @@ theorem ls_deleteRange_eval (S : Segmenter) (U : UData) (a b : Nat) (lb : LB)
   unfold LB.deleteRange
   simp [LM.bind_apply, LB.setPosChecked, hle, hd]
 
+/-- the repaired `dk` / `dj`: `set_pos(a)`, then one drain reported around the old cursor `c` -/
+theorem ls_drainAround_eval (S : Segmenter) (U : UData) (a b c : Nat) (lb : LB)
+    (ha : IsBoundary lb.buf a) (hb : IsBoundary lb.buf b) (hc : IsBoundary lb.buf c) (hab : a ≤ b) :
+    ∃ x y z d, LB.setPosChecked S U a lb = .ok ((), { lb with pos := a }, []) ∧
+      LB.drainAround a b c { lb with pos := a } = .ok (y, { lb with buf := x ++ z, pos := a }, [.del a y d]) ∧
+      lb.buf = x ++ y ++ z ∧ a = blen x ∧ b = blen x + blen y := by
+  have hle : a ≤ lb.len := ha.le_len
+  obtain ⟨x, y, z, d, hd, hbuf, hx, hy⟩ := drainAround_ok (lb := { lb with pos := a }) c ha hb hc hab
+  refine ⟨x, y, z, d, ?_, hd, hbuf, hx, hy⟩
+  simp [LB.setPosChecked, hle]
+
 theorem ls_isEmpty_false_of_lineStart {lb : LB} (h : WF lb) (hls : lineStartOf lb.buf lb.pos ≠ 0) :
     lb.buf.isEmpty = false := by
   have h1 := ls_lineStartOf_le lb.buf lb.pos
@@ -532,11 +543,11 @@ theorem kill_lineUp_is_span (S : Segmenter) (U : UData) (lb lb' : LB) (n : Nat) 
       · exact hA.boundary
     have hle' : (if findChar '\n' s = none ∧ 0 < A then A - 1 else A) ≤ B := by
       split <;> omega
-    obtain ⟨x', y, z, hd, hbuf, hx, hy⟩ := ls_deleteRange_eval S U _ B lb ha' hB hle'
+    obtain ⟨x', y, z, d, hsp, hd, hbuf, hx, hy⟩ := ls_drainAround_eval S U _ B lb.pos lb ha' hB h hle'
     have hk : LB.kill S U (.lineUp (k + 1)) lb =
         .ok (true, { lb with buf := x' ++ z, pos := (if findChar '\n' s = none ∧ 0 < A then A - 1 else A) },
-             [.startKill] ++ ([.del (if findChar '\n' s = none ∧ 0 < A then A - 1 else A) y .forward] ++ [.stopKill])) := by
-      simp [LB.kill, LM.bind_apply, LM.notify, LM.ro, heq', LM.get, LM.lift, hsf, hd]
+             [.startKill] ++ ([.del (if findChar '\n' s = none ∧ 0 < A then A - 1 else A) y d] ++ [.stopKill])) := by
+      simp [LB.kill, LM.bind_apply, LM.notify, LM.ro, heq', LM.get, LM.lift, hsf, hsp, hd]
     rw [hk] at hrun
     cases hrun
     refine checkKill_span (a := (if findChar '\n' s = none ∧ 0 < A then A - 1 else A)) (b := B)
@@ -595,13 +606,13 @@ theorem kill_lineDown_is_span (S : Segmenter) (U : UData) (lb lb' : LB) (n : Nat
     have hle'' : (if (mid.filter (· == '\n')).length ≤ n ∧ 0 < blen X then blen X - 1 else blen X) ≤
         blen X + blen mid := by
       split <;> omega
-    obtain ⟨x', y, z, hd, hbuf, hx, hy⟩ := ls_deleteRange_eval S U _ (blen X + blen mid) lb ha' hB hle''
+    obtain ⟨x', y, z, d, hsp, hd, hbuf, hx, hy⟩ := ls_drainAround_eval S U _ (blen X + blen mid) lb.pos lb ha' hB h hle''
     have hk : LB.kill S U (.lineDown n) lb =
         .ok (true, { lb with buf := x' ++ z,
                              pos := (if (mid.filter (· == '\n')).length ≤ n ∧ 0 < blen X then blen X - 1 else blen X) },
              [.startKill] ++ ([.del (if (mid.filter (· == '\n')).length ≤ n ∧ 0 < blen X then blen X - 1 else blen X)
-                y .forward] ++ [.stopKill])) := by
-      simp [LB.kill, LM.bind_apply, LM.notify, LM.ro, h2, LM.get, LM.lift, hsl, hd]
+                y d] ++ [.stopKill])) := by
+      simp [LB.kill, LM.bind_apply, LM.notify, LM.ro, h2, LM.get, LM.lift, hsl, hsp, hd]
     rw [hk] at hrun
     cases hrun
     refine checkKill_span
